@@ -235,6 +235,9 @@ func (fx *fnExec) evalSpec(e Expr, env *SpecEnv) SV {
 		c := fx.evalBool(x.C, env)
 		return fx.iteSV(c, fx.evalSpec(x.A, env), fx.evalSpec(x.B, env))
 	case ESel:
+		if id, ok := x.X.(EIdent); ok && id.Name == "io" && (x.Name == "EOF" || x.Name == "ErrUnexpectedEOF") {
+			return Sc{fx.ioSentinel(x.Name), nil}
+		}
 		v := fx.evalSpec(x.X, env)
 		return fx.selField(v, x.Name, env)
 	case EIndex:
